@@ -4,7 +4,7 @@
 # On success stores it under /verif/seeded/<Cxx><x>/ (patch.diff, demo, notes.md, meta.json).
 set -u
 P=$1; X=$2
-SRC=/tmp/seedout/$P/$X
+SRC=${SEEDOUT:-/tmp/seedout}/$P/$X
 WT=/tmp/sv_$P$X
 export GOFLAGS=-mod=mod GOPROXY=off GOSUMDB=off GOTOOLCHAIN=local
 git -C /repo worktree remove --force $WT >/dev/null 2>&1
